@@ -236,3 +236,25 @@ def make_traj(xyz, cell_list, top=None, time=None):
 
 def cell_matrices(cell_list):
     return None if cell_list is None else [box_vectors(c["L"], c["A"]) for c in cell_list]
+
+
+# --------------------------------------------------------------------------------------------- how an index array is handed over
+
+def index_variant(arr, k):
+    """the same indices in another container: 0 int64 C array, 1 int32, 2 nested Python lists, 3 a non-contiguous view (every
+    second row of a padded array), 4 Fortran order, 5 uint16 (when they fit)"""
+    a = np.asarray(arr, dtype=np.int64)
+    k = k % 6
+    if k == 1:
+        return a.astype(np.int32)
+    if k == 2 and a.size:            # (an empty Python list has no second dimension: not a pair list)
+        return a.tolist()
+    if k == 3 and a.ndim == 2 and len(a):
+        big = np.zeros((2 * len(a), a.shape[1]), dtype=np.int64)
+        big[::2] = a
+        return big[::2]
+    if k == 4 and a.ndim == 2:
+        return np.asfortranarray(a)
+    if k == 5 and a.size and a.max() < 60000 and a.min() >= 0:
+        return a.astype(np.uint16)
+    return a
